@@ -341,6 +341,8 @@ def run(prog, chk):
         chk.ok("C15.f", sc, "string mode is left only on the closing quote or the terminator", "%s:%s" % (sc.file, sc.line), "no goto out of the literal loop under an escape", evals=len(gotos))
     string_mode_automaton(chk, "C15.h", sc)
     line_break_agreement(prog, chk, "C15.i")
+    from .. import balance
+    balance.check(prog, chk, "C15.l", [f for f in prog.functions.values() if f.file.endswith("Json.cpp") and (f.cls or "").startswith("Json::Private")], "Json::Private")
     chk.rule("C15.j", "MPT: every cursor / line field the tokenizer advances is set again in Private::parse before the first tokenizer call (a Parser is reused across documents)", floor=2)
     from .server_common import parser_entry_resets
     from .c16 import look_behind
